@@ -15,6 +15,13 @@ current_node, start=False)`; failure = return False) and `RandomWalk._is_overlap
 residue at `start`).  Everything else (the loop, `_rewind`, `placed_nodes`, the retry of
 `_handle_random_walk`, `_compose_system`, the engine) is the real code.
 
+`BuildSystem._handle_random_walk` is additionally wrapped (observation only, optional) to record what every
+call returns: stream `handle-returns` compares the list `(mol_idx, success)` with `Walk.runG`, the machine in
+which the give-up branch `if step_count == self.maxiter` is spelled out (`C17_giveup_is_retry`,
+`C17_giveup_never_skips`).  Besides the random small systems, EVERY schedule up to the tier's length is run on
+seven fixed shapes (`fixed_systems`: chain, star, branched DFS tree, chain grown from a supplied middle residue,
+ring, two molecules around an ignored one; rewind depth 1/2, BuildSystem.maxiter 0/1) -- tallied `exhaustive`.
+
 Model side: `Walk.run` (lean/PolyplyVerif/Model/Walk.lean).  Correspondence: the contents of the real
 engine (the residues with a finite position, read through `get_point`, with their coordinates) and the trial `(mol_idx, prev_node, current_node)`
 at every trial, the final engine, `list(search_tree.edges)`.  Oracle: the specification predicates of
@@ -44,10 +51,12 @@ TRUSTED = [
     "outcome of a single placement trial (geometry, forces, random numbers) is an arbitrary Bool of the schedule",
     "networkx bfs_edges/dfs_edges/DiGraph.edges restated in Model/Walk.lean (bfsEdges, dfsEdges, treeEdges) and "
     "compared with list(search_tree.edges) of the real objects on every case",
-    "BuildSystem.maxiter (bound on consecutive failed attempts): both branches of the give-up test issue the same "
-    "remove_positions and _compose_system re-enters _handle_random_walk for the same molecule, so the model has one "
-    "transition for both; the generator drives maxiter in {0, 1, 2, default} so that a divergence of the branches "
-    "shows in the engine trace",
+    "BuildSystem.maxiter: the give-up branch of _handle_random_walk is MODELLED (Walk.stepG: step_count, return "
+    "values) and proved to be the single transition of the machine for every maxiter (C17_giveup_is_retry); what "
+    "stays trusted is that processor.nonbond_matrix and self.nonbond_matrix are one object (RandomWalk stores the "
+    "reference) -- a divergence would show in the engine trace of the maxiter in {0, 1, 2} cases; the return values "
+    "of _handle_random_walk are observed by wrapping the method (stream handle-returns; skipped and tallied when the "
+    "method no longer exists)",
     "lowered-threshold runs: the literal of `position_trees[-1].n > 5000` in NonBondEngine.add_positions (located by "
     "the translator) is replaced in a copy of the code object on a harness-side subclass (threshold 0, 1, 2, 4), so "
     "that the new-tree branch is taken by small systems; everything else is the real byte code",
@@ -201,6 +210,7 @@ class Recorder:
         self.trace = []
         self.idle_attempts = 0
         self.notes = []
+        self.returns = []          # [mol_idx, success] of every completed call of _handle_random_walk
 
     def at_trial(self, walker, trial):
         self.idle_attempts = 0
@@ -259,6 +269,20 @@ def run_real(case):
             raise Stuck()
         return orig_run(self, meta_molecule)
 
+    # the calls of BuildSystem._handle_random_walk and what they return (observation only)
+    handle_orig = getattr(build_system.BuildSystem, "_handle_random_walk", None)
+    handle_seen = handle_orig is not None and callable(handle_orig)
+    if handle_seen:
+        def counted_handle(self, *args, **kwargs):
+            ret = handle_orig(self, *args, **kwargs)
+            try:
+                idx = kwargs["mol_idx"] if "mol_idx" in kwargs else args[1]
+                ok = ret[0] if isinstance(ret, tuple) else ret
+                rec.returns.append([int(idx), bool(ok)])
+            except Exception:  # pylint: disable=broad-except
+                rec.returns.append(None)
+            return ret
+        build_system.BuildSystem._handle_random_walk = counted_handle
     saved = (random_walk.RandomWalk.update_positions, random_walk.RandomWalk._is_overlap,
              random_walk.RandomWalk.run_molecule)
     saved_engine = build_system.NonBondEngine
@@ -282,6 +306,8 @@ def run_real(case):
         (random_walk.RandomWalk.update_positions, random_walk.RandomWalk._is_overlap,
          random_walk.RandomWalk.run_molecule) = saved
         build_system.NonBondEngine = saved_engine
+        if handle_seen:
+            build_system.BuildSystem._handle_random_walk = handle_orig
     engine = builder.nonbond_matrix
     if result["finished"] or result["stuck"]:
         rec.trace.append(dict(trial=None, eng=snapshot(engine, top, case["ignore"])))
@@ -315,7 +341,9 @@ def run_real(case):
         else:
             paths.append(None)
             firsts.append(None)
-    result.update(trace=rec.trace, used=rec.used, writeback=writeback, paths=paths, firsts=firsts, adjs=adjs)
+    returns = rec.returns if handle_seen and None not in rec.returns else None
+    result.update(trace=rec.trace, used=rec.used, writeback=writeback, paths=paths, firsts=firsts, adjs=adjs,
+                  returns=returns)
     return result
 
 
@@ -332,6 +360,7 @@ def mol_json(spec, adj, ignore, path=None, first=None):
 
 def requests_for(case, real):
     run_req = dict(op="run", nrewind=case["nrewind"], maxiter=case["maxiter"], sched=case["sched"],
+                   bs_maxiter=case.get("bs_maxiter"),
                    mols=[mol_json(s, a, case["ignore"]) for s, a in zip(case["mols"], real["adjs"])])
     spec_req = dict(op="spec", finished=bool(real["finished"]),
                     mols=[mol_json(s, a, case["ignore"], p, f)
@@ -359,6 +388,13 @@ def judge(ctx, case, real, run_ans, spec_ans):
     ctx.correspond("engine-trace", impl_trace, model_trace, replay)
     impl_end = ("error:" + real["error"]) if real["error"] else "done" if real["finished"] else "stuck" if real["stuck"] else "trial"
     ctx.correspond("end-state", impl_end, "trial" if model_end in ("start", "walk") else model_end, replay)
+    # the calls of _handle_random_walk: (mol_idx, success) of every call that returned, vs Walk.runG
+    if real.get("returns") is None:
+        ctx.tally(handle_returns="not observable")
+    elif not real["stuck"] and not real["error"] and model_end != "stuck" and "returns" in run_ans:
+        ctx.correspond("handle-returns", real["returns"], [list(r) for r in run_ans["returns"]], replay)
+        if any(not ok for _, ok in real["returns"]):
+            ctx.tally(handle_gave_up=True)
     for idx, (path, first) in enumerate(zip(real["paths"], real["firsts"])):
         if path is not None:
             ctx.correspond("search-tree-edges", dict(first=first, path=path),
@@ -558,6 +594,32 @@ def run_batch(ctx, pairs):
         judge(ctx, case, real, answers[2 * idx], answers[2 * idx + 1])
 
 
+def fixed_systems():
+    """small systems whose schedules are enumerated completely (deterministic, independent of the seed)"""
+    def mol(name, shape, nodes, edges, supplied=(), start=None, dfs=False):
+        sup = [[n, SUPPLIED_BASE + 100 + k] for k, n in enumerate(supplied)]
+        return dict(name=name, shape=shape, nodes=list(nodes), edges=[list(e) for e in edges], start=start, dfs=dfs,
+                    build=[n for n in nodes if n not in supplied], supplied=sup, centre_only=[])
+
+    def system(mols, nrewind, bs_maxiter, ignore=()):
+        return dict(mols=mols, ignore=list(ignore), nrewind=nrewind, maxiter=None, bs_maxiter=bs_maxiter,
+                    tree_threshold=None)
+    chain = [(0, 1), (1, 2), (2, 3)]
+    return [
+        ("chain4,nrewind=1,bs_maxiter=0", system([mol("T0", "path", range(4), chain)], 1, 0)),
+        ("chain4,nrewind=2,bs_maxiter=1", system([mol("T0", "path", range(4), chain)], 2, 1)),
+        ("star4,nrewind=1,bs_maxiter=1", system([mol("T0", "star", range(4), [(0, 1), (0, 2), (0, 3)])], 1, 1)),
+        ("tree5,dfs,nrewind=2,bs_maxiter=0",
+         system([mol("T0", "tree", range(5), [(0, 1), (1, 2), (1, 3), (3, 4)], dfs=True)], 2, 0)),
+        ("chain5,middle-supplied,start=2,nrewind=1,bs_maxiter=0",
+         system([mol("T0", "path", range(5), chain + [(3, 4)], supplied=(2,), start=2)], 1, 0)),
+        ("ring4,nrewind=2,bs_maxiter=1", system([mol("T0", "ring", range(4), chain + [(3, 0)])], 2, 1)),
+        ("chain3+ignored+chain2,nrewind=1,bs_maxiter=0",
+         system([mol("T0", "path", range(3), chain[:2]), mol("T1", "path", range(2), chain[:1], supplied=(0, 1)),
+                 mol("T0", "path", range(3), chain[:2], supplied=(0,))], 1, 0, ignore=("T1",))),
+    ]
+
+
 def explore_exhaustive(system, depth, out):
     """Every outcome schedule of length <= depth that the REAL run distinguishes, each run once: run the
     all-success extension of a prefix, then flip every consumed position after the prefix to a failure."""
@@ -589,6 +651,14 @@ def run(ctx):
         if k % 3 == 0:
             system["nrewind"] = rng.choice([0, 1, 2])
         explore_exhaustive(system, depth if k < 3 else depth - 2, cases)
+    # 1b. EVERY schedule up to the tier's length on fixed small shapes (not sampled): chain, star, branched
+    #     tree, chain grown from the middle with a supplied prefix, ring, two molecules; rewind depths 1 and 2,
+    #     BuildSystem.maxiter 0 and 1 (so that the give-up branch is taken by every failed / every second attempt)
+    fdepth = ctx.budget(7, 9)
+    for name, system in fixed_systems():
+        before = len(cases)
+        explore_exhaustive(system, fdepth, cases)
+        ctx.tally(**{"all_schedules(%s, length<=%d: %d runs)" % (name, fdepth, len(cases) - before): "exhaustive"})
     # 2. random schedules on larger systems
     for _ in range(ctx.budget(250, 2500)):
         system = gen_system(rng, max_mols=4, max_n=rng.choice([4, 8, 14, 25]))
